@@ -490,11 +490,91 @@ def run_cub(c):
     return ck.result()
 
 
+
+# ------------------------------------------------------------------------------------------- 3D polygon against collections
+@st.composite
+def polycoll_case(draw, tier="quick"):
+    n = draw(st.integers(3, 6))
+    idx = sorted(draw(st.permutations(range(16)))[:n])
+    m = draw(st.integers(1, 5))
+    members = [{"mode": draw(st.sampled_from(["pierce", "pierce", "parallel", "short", "inplane"])), "q": [draw(st.integers(-8, 16)) for _ in range(4)], "h": draw(st.sampled_from([1, 2, -1, 3]))} for _ in range(m)]
+    return {"idx": idx, "radii": [draw(st.integers(1, 3)) for _ in range(n)], "off": [draw(C.ints(4)), draw(C.ints(4))], "frame": [draw(C.ints(3)) for _ in range(9)],
+            "other": draw(st.sampled_from(["lines", "segments"])), "members": members, "es": [draw(st.sampled_from([0, 0, 1, 2, 3])), draw(st.sampled_from([0, 0, 1, 2, 3]))]}
+
+
+def run_polycoll(c):
+    """one polygon of 3-space against a LineCollection / SegmentCollection whose members pierce its plane inside or outside the
+    polygon, are parallel to the plane, or (segments) end before they reach it: the returned points are exactly the piercing
+    points of the members that hit the polygon"""
+    set_endpoint_scales(c)
+    pts = [[Fraction(DIRS[i][0] * r + c["off"][0]), Fraction(DIRS[i][1] * r + c["off"][1])] for i, r in zip(c["idx"], c["radii"])]
+    if not X.is_simple_polygon(pts):
+        raise Skip("not simple")
+    o, u, w = (np.array(c["frame"][i : i + 3], float) for i in (0, 3, 6))
+    if np.linalg.matrix_rank(np.stack([u, w])) < 2:
+        raise Skip("degenerate frame")
+    nrm = np.cross(u, w)
+    e3 = lambda p: o + float(p[0]) * u + float(p[1]) * w  # noqa: E731
+    poly = Polygon(np.array([np.append(e3(p), 1.0) for p in pts]))
+    ends, exp = [], []
+    for mb in c["members"]:
+        A = [Fraction(mb["q"][0], 2), Fraction(mb["q"][1], 2)]
+        B = [Fraction(mb["q"][2], 2), Fraction(mb["q"][3], 2)]
+        if A == B or mb["mode"] not in ("pierce", "parallel", "short", "inplane"):
+            raise Skip("degenerate member")
+        if any(X.on_segment(pts[i], pts[(i + 1) % len(pts)], A) for i in range(len(pts))) and mb["mode"] != "parallel":
+            pass  # boundary points belong to the polygon (closed region)
+        h = mb["h"]
+        if mb["mode"] == "parallel":
+            X1, X2 = e3(A) + nrm, e3(B) + nrm
+        elif mb["mode"] == "inplane":
+            X1, X2 = e3(A), e3(B)  # infinitely many (or no) common points: whatever is returned for it must lie in the polygon
+        elif mb["mode"] == "short" and c["other"] == "segments":
+            X1, X2 = e3(A) + h * nrm + (e3(B) - e3(A)), e3(A) + 3 * h * nrm + 2 * (e3(B) - e3(A))
+        else:
+            X1, X2 = e3(A) + h * nrm + (e3(B) - e3(A)), e3(A) - h * nrm - (e3(B) - e3(A))
+            if X.point_in_polygon(pts, A):
+                exp.append(e3(A))
+        ends.append((X1, X2))
+    kinds = sorted({mb["mode"] for mb in c["members"]})
+    site = f"polygon3:{c['other']}-collection:" + "+".join(kinds)
+    if c["other"] == "lines":
+        other = G.LineCollection(np.stack([Line(P(a), P(b)).array for a, b in ends]))
+    else:
+        other = G.SegmentCollection(np.stack([np.stack([hom(a) * ES[0], hom(b) * ES[1]]) for a, b in ends]))
+    r, f = call(site, poly.intersect, other)
+    if f:
+        return [f]
+    ck = Checker()
+    # the same point may be hit by two members: compare as multisets without merging
+    garr = [np.asarray(g.array) for g in list(r)]
+    earr = [hom(e) for e in exp]
+    if "inplane" in kinds:
+        # members inside the plane may add points of the polygon; the piercing points of the other members are all there
+        rest = list(garr)
+        for e in earr:
+            j = next((j for j, g in enumerate(rest) if C.peq_all(g, e, 1, 1e-6)), None)
+            if not ck.check(j is not None, site + ":piercing-point-missing", ([g.tolist() for g in garr], e.tolist())):
+                return ck.result()
+            rest.pop(j)
+        for g in rest:
+            cc, f = call("contains", poly.contains, Point(g))
+            if f is None:
+                ck.check(bool(np.all(cc)), site + ":extra-point-not-in-polygon", g.tolist())
+        return ck.result()
+    ck.check(len(garr) == len(earr) and C.multiset_peq(garr, earr, 1e-6), site + (":hit" if exp else ":miss"), ([g.tolist() for g in garr], [e.tolist() for e in earr]))
+    return ck.result()
+
+
 LAWS = [
     Law("segments", lambda tier: seg_case(tier), run_seg, lambda c: c["mode"] != "generic" or c["skew"], lambda c: [c["what"], c["mode"]], {"quick": 2500, "thorough": 40000},
         "segment.intersect(segment|line|plane) in 2D/3D incl. endpoint contact, collinear, parallel, skew, collections", shard=300),
     Law("polygons", lambda tier: poly_case(tier), run_poly, lambda c: c["mode"] != "generic", poly_labels, {"quick": 2000, "thorough": 40000},
         "polygon.intersect(line|segment): boundary points in 2D, piercing point in 3D, vertices/edges/in-plane/parallel/miss", shard=200),
+    Law("polygon3d_vs_collections", lambda tier: polycoll_case(tier), run_polycoll, lambda c: len(c["members"]) > 1,
+        lambda c: [c["other"], f"members{len(c['members'])}"] + (["mixed-parallel-and-piercing"] if {"parallel", "pierce"} <= {m["mode"] for m in c["members"]} else []) + (["all-parallel"] if {m["mode"] for m in c["members"]} == {"parallel"} else []) + (["member-in-the-plane"] if any(m["mode"] == "inplane" for m in c["members"]) and len(c["members"]) > 1 else []),
+        {"quick": 800, "thorough": 15000}, "one 3D polygon against line / segment collections mixing piercing, missing, parallel and too short members: exactly the piercing points inside the polygon", shard=200,
+        mandatory=("mixed-parallel-and-piercing", "member-in-the-plane")),
     Law("cuboids", lambda tier: cub_case(tier), run_cub, lambda c: c["mode"] != "generic", lambda c: [c["other"], c["mode"]] + (["derived-from-a-queried-object"] if c.get("derive") else []), {"quick": 600, "thorough": 10000},
         "cuboid.intersect(line|segment) vs slab method: two face points, vertex/edge contact once, parallel, in a face plane, miss", shard=60),
 ]
